@@ -4,6 +4,10 @@
 -/
 namespace GJS
 
+def lookupS (k : String) : List (String × String) → Option String
+  | [] => none
+  | (k', v) :: rest => if k = k' then some v else lookupS k rest
+
 structure SchemaMapping where
   schemaID : String
   packageName : String
@@ -25,6 +29,18 @@ def route (ms : List SchemaMapping) (defOut defPkg : String) (id : String) : Out
 /-- `Generator.getRootTypeName`: the root-type override of the first mapping with this id that has one -/
 def rootOverride (ms : List SchemaMapping) (id : String) : Option String :=
   (ms.find? (fun m => m.schemaID = id ∧ m.rootType ≠ "")).map (·.rootType)
+
+/-- main.go: the mapping assembled for an id named by any of the per-schema flags (`pkgs`, `outs`, `roots` are
+    the parsed --schema-package / --schema-output / --schema-root-type maps).  Since fix R12 an id with neither a
+    package nor an output goes to the default output; a package without an output keeps the empty output name
+    ("these types live elsewhere, emit nothing"). -/
+def assembleMapping (pkgs outs roots : List (String × String)) (defPkg defOut : String) (id : String) : SchemaMapping :=
+  { schemaID := id
+    packageName := (lookupS id pkgs).getD defPkg
+    outputName := (match lookupS id outs with
+      | some o => o
+      | none => if (lookupS id pkgs).isSome then "" else defOut)
+    rootType := (lookupS id roots).getD "" }
 
 inductive RouteErr where
   | noPackage (id : String)
